@@ -639,6 +639,17 @@ def r3_population_params(ctx, rid):
             ok_key = ok_key and isinstance(vd, ast.Name) and isinstance(inner.target, ast.Tuple) and len(inner.target.elts) == 2 \
                 and isinstance(inner.target.elts[1], ast.Name) and inner.target.elts[1].id == vd.id
         else:
+            # an inexact key match (suffix / prefix / substring / regex search over the keys) lets a parameter meant for one
+            # operator's variable land on a same-named variable of another operator
+            inexact = [c for c in ast.walk(kv if kv is not None else key) if isinstance(c, ast.Call) and call_name(c) in
+                       ("endswith", "startswith", "find", "search", "match", "fnmatch", "rfind")]
+            inexact += [c for c in ast.walk(kv if kv is not None else key) if isinstance(c, ast.Compare) and isinstance(c.ops[0], (ast.In, ast.NotIn))
+                        and isinstance(c.left, ast.Name) and isinstance(c.comparators[0], ast.Name)]
+            if inexact:
+                ctx.violation(rid, f, sub, f"the per-unit parameter is looked up by an inexact key match (`{norm(inexact[0])}`) instead of the exact key "
+                                           f"'<op>/<var>' of the variable being expanded: a value given for `slow_rate_op/tau` would also be "
+                                           f"applied to `rate_op/tau`", label=f"param key: {norm(sub)}")
+                continue
             raise AnalysisError(f"{rid}: parameter key `{norm(kv) if kv is not None else norm(key)}` has an unrecognised form")
         if ok_key:
             ctx.ok(rid, f, sub, "the parameter is looked up under '<op>/<var>' of the variable being expanded", label=f"param key: {norm(sub)}")
